@@ -242,7 +242,9 @@ def gen_history(rng, length, flavor, pkce_required=False, supported=None, strict
             op = {"op": k, "auth": auth(prefer=t[1] if t else None), "token": (t[0] if t else rng.choice([None, "at999", "rt999", "zzz"])),
                   "hint": rng.choice([None, None, "access_token", "refresh_token", "bogus", ""])}
         elif k == "access":
-            t = rng.choice(ats) if ats and rng.random() < 0.9 else None
+            t = rng.choice(ats) if ats and rng.random() < 0.8 else None
+            if t is None and rts and rng.random() < 0.6:
+                t = rng.choice(rts)           # a live refresh token string presented as a bearer token
             op = {"op": k, "token": (t[0] if t else rng.choice([None, "at999", "rt1", "zzz"])), "required": rng.choice([None, None, ["a"], ["a b"], ["z"], ["c", "a"], []])}
         else:
             op = {"op": "advance", "dt": rng.choice([1, 3, 10, 299, 301, 1700, 1801, 3601, 900000])}
